@@ -225,12 +225,12 @@ PROPS = {
     ),
     "C07": dict(
         rules=[R("vm", "rule_regs"), R("vm", "rule_frames"), R("vm", "rule_catch_restore"), R("vm", "rule_import"),
-               R("vm", "rule_exec_state"), R("vm", "rule_unwind_all")],
+               R("vm", "rule_exec_state"), R("vm", "rule_unwind_all"), R("vm", "rule_builders_on_error")],
         clause="Structural necessary conditions of 'a failed run leaves the runtime clean': host-facing VM entries "
                "truncate the value stack on every exit (R-REGS); nested interpreter entries pop their frame on failure "
                "(R-FRAMES); builder stacks are restored at catch (R-CATCH-RESTORE); a failed import removes its cache "
                "placeholder and restores exports (R-IMPORT); execution_state is never left Active (R-EXEC-STATE). "
-               "every error returned by the interpreter loop has passed the unwinder (R-UNWIND-ALL). Not decided: behavioural equivalence with a fresh instance over arbitrary histories.",
+               "every error returned by the interpreter loop has passed the unwinder (R-UNWIND-ALL). an error that leaves the interpreter loop takes its unfinished sequence / string builders with it (R-BUILDERS-ON-ERROR). Not decided: behavioural equivalence with a fresh instance over arbitrary histories.",
         technique="MIR path rules (pairing on all exits) over a rustc_private fact dump",
     ),
     "C08": dict(
